@@ -12,7 +12,7 @@ LEVEL = 'exploration'
 RULE = ('(a) ALL token strings up to length n over a 28-token alphabet, alone and after the head `out =`; (b) for a corpus of valid specifications that '
         'covers every production: every single-token deletion, insertion and substitution from the alphabet at every position; (c) every insertion of a '
         'character that belongs to no token at every position of the corpus texts, plus the empty and blank texts; (d) all interval bound pairs from '
-        '{0,1,2,3}^2 with and without units, bound constants declared/undeclared, identifiers declared/undeclared/dotted; every token string is presented '
+        '{0,1,2,3}^2 with and without units, declarations in the text (const <type> k = <every literal form> used as value / bound / both / not at all, variable declarations with io type and initial value, imports of classes, modules, plain values and missing names), bound constants declared/undeclared, identifiers declared/undeclared/dotted; every token string is presented '
         'twice, with single blanks and with no white space around brackets, commas, colons and semicolons; (e) all sequences of up to 5 (thorough: 6) operations on ONE '
         'specification object over {4 spec texts, 5 add_sub_spec texts (valid and invalid), parse()}: every parse() is judged against the text in force. Oracle (one-directional): '
         'parse() returns => the token string is derivable from the grammar (Earley recogniser over the productions of the .g4 files), no character was '
@@ -94,8 +94,21 @@ def lit_value(w):
     return Fr(Decimal(t))
 
 
+def declared_consts(words):
+    """constants declared by the text itself: const <type> <name> = <literal>"""
+    out = {}
+    for i in range(len(words) - 4):
+        if words[i] == 'const' and words[i + 3] == '=':
+            try:
+                out[words[i + 2]] = lit_value(words[i + 4])
+            except Exception:
+                pass
+    return out
+
+
 def side_conditions(words):
     """message if an accepted text violates a side condition of the statement"""
+    CONSTS = dict(globals()['CONSTS'], **declared_consts(words))
     for a, ua, b, ub in intervals_of(words):
         for w in (a, b):
             if grammar.token_type(w) == 'Identifier' and w not in CONSTS:
@@ -117,6 +130,15 @@ def first_evaluation(spec, words):
     d = {'time': [0, 1, 2]}
     for v in ids:
         d[v] = [1.0, 2.0, 0.5]
+    if len(words) > 5 and words[0] == 'from' and words[4] == words[3] and words[5] == 'p':
+        # well-formed data for a variable of an imported structured type: objects that carry the fields the texts read (p.x, p.inner.x)
+        from .. import msgs
+        objs = []
+        for x in d['p']:
+            o = msgs.Outer(x=x)
+            o.x = x
+            objs.append(o)
+        d['p'] = objs
     return impl.outcome(spec.evaluate, d)
 
 
@@ -170,6 +192,8 @@ def shards(tier):
     out.append({'mode': 'illegal'})
     out.append({'mode': 'bounds'})
     out.append({'mode': 'literals'})
+    for k in range(4):
+        out.append({'mode': 'declarations', 'part': k})
     out.append({'mode': 'nesting'})
     for o in SEQ_OPS:
         out.append({'mode': 'sequences', 'first': o[0], 'n': 5 if tier == 'quick' else 6})
@@ -355,6 +379,33 @@ def run_shard(shard, tier, res):
                     res.nontrivial += 1
                 res.digest(construct, depth, cls)
         res.sample({'text': 'out = ' + c17.NEST['parentheses'](3), 'depth': 3, 'verdict': 'derivable: must parse or be refused with RTAMTException'}, 1)
+    elif shard['mode'] == 'declarations':
+        # declarations and imports in front of the assertion: every literal form x every numeric domain type x uses of the constant as a value,
+        # as a bound, both, or not at all; variable declarations with / without io type and initial value; imports of names that are classes,
+        # modules, plain values or missing
+        bodies = (['out', '=', 'x', '>=', 'k'], ['out', '=', 'once', '[', '0', ',', 'k', ']', 'x'], ['out', '=', 'x', '+', 'k', '>=', 'abs', '(', 'k', ')'],
+                  ['out', '=', 'x'], ['out', '=', 'always', '[', 'k', ':', 'k', ']', '(', 'x', '<=', 'k', ')'])
+        types = ('int', 'float', 'long', 'complex')
+        if shard['part'] < 3:
+            for T in types:
+                for lit in LITERALS[shard['part']::3]:
+                    for body in bodies:
+                        one(['const', T, 'k', '=', lit] + body)
+        else:
+            for body in (['out', '=', 'u', '>=', '1'], ['out', '=', 'once', '[', '0', ',', '1', ']', '(', 'u', '+', 'x', '>=', '1', ')'], ['out', '=', 'x']):
+                for io in ([], ['input'], ['output']):
+                    for T in types:
+                        one(io + [T, 'u'] + body)
+                        for lit in ('1', '1.5', '0x10', '1e1'):
+                            one(io + [T, 'u', '=', lit] + body)
+                one(['input', 'float', 'u', 'output', 'float', 'out'] + body)
+                one(['const', 'int', 'k', '=', '2', 'input', 'float', 'u'] + body)
+            for M, N in (('os', 'path'), ('os', 'foo'), ('nosuchmodule', 'X'), ('math', 'pi'), ('collections', 'OrderedDict'), ('fractions', 'Fraction'),
+                         ('os', 'sep'), ('vf.msgs', 'Msg'), ('vf.msgs', 'Outer'), ('vf', 'msgs')):
+                for body in (['out', '=', 'x', '>=', '1'], ['out', '=', 'p', '>=', '1'], ['out', '=', 'p.x', '>=', '1'], ['out', '=', 'p.inner.x', '+', 'x', '>=', '1']):
+                    one(['from', M, 'import', N, N, 'p'] + body)
+                    one(['from', M, 'import', N] + body)
+        res.sample({'text': 'const int k = 2.5 out = x >= k', 'verdict': 'derivable: must parse or be refused with RTAMTException'}, 1)
     elif shard['mode'] == 'literals':
         for lit in LITERALS:
             for words in (['out', '=', 'x', '>=', lit], ['out', '=', lit], ['out', '=', 'abs', '(', 'x', '-', lit, ')', '<=', lit],
